@@ -1,6 +1,8 @@
 import Lean.Data.Json
 import ColaVerif.Basic.GInt
 import ColaVerif.Model.Matmat
+import ColaVerif.Model.Wf
+import ColaVerif.Model.Bound
 
 /-!
 Line-protocol driver: one JSON case per input line, one JSON answer per output line.
@@ -108,8 +110,13 @@ def maxAbsMat (r c : Nat) (m : MatF GInt) : Nat :=
 def showAnns (s : AnnSet) : String :=
   "[" ++ ",".intercalate ((AnnSet.canon s).map fun a => "\"" ++ a.toString ++ "\"") ++ "]"
 
+def showStrs (l : List String) : String :=
+  "[" ++ ",".intercalate (l.map fun s => "\"" ++ s ++ "\"") ++ "]"
+
 def header (A : Op GInt) : String :=
-  s!"\"rows\":{A.rows},\"cols\":{A.cols},\"dtype\":\"{A.dtype.toString}\",\"anns\":{showAnns A.anns}"
+  s!"\"rows\":{A.rows},\"cols\":{A.cols},\"dtype\":\"{A.dtype.toString}\",\"anns\":{showAnns A.anns},\"wf\":{A.wf},\"clauses\":{showStrs A.clauses}"
+
+def absMat (m : MatF GInt) : MatF GInt := fun i j => Op.absZ (m i j)
 
 def handle (j : Json) : E String := do
   let id := (j.getObjVal? "id").toOption.getD .null
@@ -123,18 +130,21 @@ def handle (j : Json) : E String := do
       let X := (forceV A.cols b (matF xm)).f
       let code := (A.mm b X).f
       let spec := (forceV A.rows b (mmul A.cols A.den.f X)).f
-      pure ("{" ++ pre ++ s!",\"code\":{showMat A.rows b code},\"spec\":{showMat A.rows b spec},\"maxabs\":{maxAbsMat A.rows b spec}" ++ "}")
+      let bound := maxAbsMat A.rows b (A.absOp.mm b (forceV A.cols b (absMat X)).f).f
+      pure ("{" ++ pre ++ s!",\"code\":{showMat A.rows b code},\"spec\":{showMat A.rows b spec},\"absbound\":{bound}" ++ "}")
   | "rmatmat" => do
       let xm ← jMat ((j.getObjVal? "x").toOption.getD .null)
       let b := xm.size
       let X := (forceV b A.rows (matF xm)).f
       let code := (A.rmm b X).f
       let spec := (forceV b A.cols (mmul A.rows X A.den.f)).f
-      pure ("{" ++ pre ++ s!",\"code\":{showMat b A.cols code},\"spec\":{showMat b A.cols spec},\"maxabs\":{maxAbsMat b A.cols spec}" ++ "}")
+      let bound := maxAbsMat b A.cols (A.absOp.rmm b (forceV b A.rows (absMat X)).f).f
+      pure ("{" ++ pre ++ s!",\"code\":{showMat b A.cols code},\"spec\":{showMat b A.cols spec},\"absbound\":{bound}" ++ "}")
   | "dense" => do
       let code := A.td.f
       let spec := A.den.f
-      pure ("{" ++ pre ++ s!",\"code\":{showMat A.rows A.cols code},\"spec\":{showMat A.rows A.cols spec},\"maxabs\":{maxAbsMat A.rows A.cols spec}" ++ "}")
+      let bound := maxAbsMat A.rows A.cols A.absOp.td.f
+      pure ("{" ++ pre ++ s!",\"code\":{showMat A.rows A.cols code},\"spec\":{showMat A.rows A.cols spec},\"absbound\":{bound}" ++ "}")
   | "info" => pure ("{" ++ pre ++ "}")
   | c => throw s!"unknown call {c}"
 
